@@ -33,12 +33,45 @@ EXPLANATION = 'Postcondition of decode(encode(x)) on the real codec functions, f
 
 
 class JsonBytesModel:
-    m_encode = staticmethod(lambda ex, o, *a: o)
-    m_decode = staticmethod(lambda ex, o, *a: o)
+    """# TRUSTED: json / str.encode / bytes.decode (library contract, by parameters).  json.dumps(v) with ensure_ascii=True (the default) yields pure ASCII text: every
+    codec and error mode encodes and decodes it exactly, and json.loads gives back an equal value.  With ensure_ascii=False the text carries the strings of v as they are,
+    possibly with lone surrogates (a non-UTF-8 file name, text cut inside a surrogate pair): utf-8 'strict' then raises UnicodeEncodeError, a lossy error mode
+    ('replace', 'ignore', ...) silently yields the bytes of a DIFFERENT value.  Whether v contains a lone surrogate is a free boolean of the run."""
+    @staticmethod
+    def m_encode(ex, o, encoding='utf-8', errors='strict'):
+        if o.f.get('ascii', True):
+            return o
+        if not isinstance(encoding, str) or not isinstance(errors, str):
+            raise Unsupported('encode with a symbolic codec / error mode')
+        if encoding.lower().replace('_', '-') not in ('utf-8', 'utf8'):
+            raise Unsupported(f'non-ASCII JSON text encoded as {encoding}')
+        surr = z3.Bool('data_has_a_lone_surrogate')
+        ex.__dict__.setdefault('json_flags', {})['data_has_a_lone_surrogate'] = surr
+        if not ex.decide(surr):
+            return o
+        if errors == 'strict':
+            raise ExcSig('UnicodeEncodeError', "str.encode('utf-8'): surrogates not allowed")
+        if errors == 'surrogatepass':
+            return Obj('jsonbytes', of=o.f['of'], ascii=False, surrogate_bytes=True)
+        return Obj('jsonbytes', of={'<the data with its lone surrogates replaced>': True}, ascii=False)     # a lossy error mode: the bytes of another value
+
+    @staticmethod
+    def m_decode(ex, o, encoding='utf-8', errors='strict'):
+        if o.f.get('surrogate_bytes') and errors != 'surrogatepass':
+            if errors == 'strict':
+                raise ExcSig('UnicodeDecodeError', "bytes.decode('utf-8'): invalid continuation byte (encoded surrogate)")
+            return Obj('jsonbytes', of={'<the data with its lone surrogates replaced>': True}, ascii=False)
+        return o
 
 
 def json_dumps(ex, v, **kw):
-    return Obj('jsonbytes', of=v)
+    unknown = set(kw) - {'separators', 'ensure_ascii', 'indent', 'sort_keys'}
+    if unknown:
+        raise Unsupported(f'json_dumps with {sorted(unknown)}')
+    asc = kw.get('ensure_ascii', True)
+    if not isinstance(asc, bool):
+        raise Unsupported('json_dumps with a symbolic ensure_ascii')
+    return Obj('jsonbytes', of=v, ascii=asc)
 
 
 def json_loads(ex, v):
@@ -175,6 +208,10 @@ class CodecUnit(Unit):
                     f = type(f)(f, {})
                 frames[('main', '_hidden')[i]] = f
             obs += self._roundtrip(frames, info, np, RMQ, ' (strided image)' if strided else '')
+            if not strided:
+                # data whose strings are not plain ASCII: other scripts, an astral character, and a lone surrogate (a non-UTF-8 file name as os.fsdecode yields it)
+                odd = {t: (type(f)(f, {**(f.data or {}), 'label': 'caf\u00e9 \u4e2d\u6587 \U0001f600', 'src': 'caf\udce9_0001.png', 'k\udc80': 1}) if f.data else f) for t, f in frames.items()}
+                obs += self._roundtrip(odd, info, np, RMQ, ' (data with non-ASCII strings and a lone surrogate)')
         return {'confirmed': bool(obs), 'inputs': info, 'observed': obs or 'round trip ok natively', 'required': 'decode(encode(x)) preserves topics, data, image presence, shape/format, pixels'}
 
     def _roundtrip(self, frames, info, np, RMQ, tag):
